@@ -296,6 +296,17 @@ class Interp:
             env[t.id] = v
         elif isinstance(t, (ast.Tuple, ast.List)):
             vs = list(self.iterate(v))
+            stars = [i for i, e in enumerate(t.elts) if isinstance(e, ast.Starred)]
+            if len(stars) == 1:
+                i, after = stars[0], len(t.elts) - stars[0] - 1
+                if len(vs) < len(t.elts) - 1:
+                    raise PyRaise("ValueError", "unpack")
+                for e, x in zip(t.elts[:i], vs[:i]):
+                    self._assign(e, x, env)
+                self._assign(t.elts[i].value, list(vs[i:len(vs) - after]), env)
+                for e, x in zip(t.elts[i + 1:], vs[len(vs) - after:]):
+                    self._assign(e, x, env)
+                return
             if len(vs) != len(t.elts):
                 raise PyRaise("ValueError", "unpack")
             for e, x in zip(t.elts, vs):
